@@ -158,7 +158,8 @@ theorem ringPos_open_ring_witness :
 /-- [T] (translator tie) the orientation and point-on-segment kernels of the model are, definition for
 definition, what `translator/rs2lean.py` regenerates from the Rust bodies on this run
 (`Kernel::orient2d`, `Line: Intersects<Coord>`, `Line: Intersects<Line>`, `point_in_rect`,
-`value_in_between`, `square_euclidean_distance`, `Point::cross_prod`). A change of a comparison, an
+`value_in_between`, `square_euclidean_distance`, `Point::cross_prod`, and the per-edge body of the winding
+loop of `coord_pos_relative_to_ring`). A change of a comparison, an
 argument order or a branch in those Rust functions changes the regenerated definitions and this
 theorem stops checking. -/
 theorem orientation_kernels_eq_source :
@@ -168,8 +169,9 @@ theorem orientation_kernels_eq_source :
     (∀ p a b, pointInRect p a b = Gen.pointInRect p a b) ∧
     (∀ v a b, valueInBetween v a b = Gen.valueInBetween v a b) ∧
     (∀ p q, dist2 p q = Gen.squareEuclideanDistance p q) ∧
-    (∀ a b c, crossProd a b c = Gen.crossProd a b c) :=
+    (∀ a b c, crossProd a b c = Gen.crossProd a b c) ∧
+    (∀ p s e, ringEdge p s e = Gen.ringEdge p s e) :=
   ⟨GenKernel.orient_eq, GenKernel.lineCoord_eq, GenKernel.lineLine_eq, GenKernel.pointInRect_eq,
-   GenKernel.valueInBetween_eq, GenKernel.dist2_eq, GenKernel.crossProd_eq⟩
+   GenKernel.valueInBetween_eq, GenKernel.dist2_eq, GenKernel.crossProd_eq, GenKernel.ringEdge_eq⟩
 
 end Geo.Proofs.C03
